@@ -88,6 +88,7 @@ def run_check(args):
             ledger = json.load(f)
 
     crashes = []
+    unsupported_funcs = {}
     total = discharged = 0
     failed = []
     unknown = []
@@ -102,6 +103,8 @@ def run_check(args):
             continue
         if r["error"]:
             crashes.append("%s: %s" % (fname, r["error"]))
+            if r["error"].startswith("unsupported"):
+                unsupported_funcs[fname] = crashes[-1]
             continue
         functions.append(fname)
         if not r["obligations"]:
@@ -211,15 +214,29 @@ def run_check(args):
     # native failures of clauses the prover discharged: unsound encoding or contract error -> exit 3
     proved_texts = set()
     failed_texts = set(ob["text"] for _, ob in failed) | set(ob["text"] for _, ob in unknown)
+    # a function that left the verifiable subset (e.g. a new loop without invariant) cannot be decided by the
+    # prover; if the native executable contract finds a failing input on it, that input is the verdict
+    for fname, msg in unsupported_funcs.items():
+        if any(n_.split("[")[0] == fname for n_, _fl in native_fail):
+            crashes.remove(msg)
+            print("NOTE: %s (prover could not process the function; deciding by the native executable contract)" % msg)
     failing_functions = set("%s:%s" % (r["rel"], r["qual"]) for r, _ in failed + unknown)
     for name, fl in native_fail:
         if name.split("[")[0] in failing_functions:
             continue        # the prover already refutes an obligation of this function
         unexplained = [t for t in fl.get("failed_clauses", []) if not any(t in ft or ft in t for ft in failed_texts)]
         if unexplained:
-            crashes.append("native cross-check: clause false on the real function but not refuted by the prover "
-                           "(unsound encoding or contract error): %s %s inputs=%s"
-                           % (name, unexplained, json.dumps(fl.get("inputs"))[:400]))
+            # a concrete input on which the real function violates a contract clause: reported as a violation with
+            # that input as the replay (the prover did not refute the clause: a callee contract it relies on is
+            # broken, or the encoding is unsound - both need attention)
+            slug = re.sub(r"[^A-Za-z0-9_.-]+", "_", name + "_" + unexplained[0])[:150]
+            path = os.path.join(rdir, "%s-native-%s.json" % (prop, slug))
+            with open(os.path.join(VERIF, path), "w") as f:
+                json.dump({"property": prop, "obligation": "native cross-check of %s" % name,
+                           "clause": unexplained[0], "function": {"rel": name.split(":")[0], "qual": name.split(":")[1].split("[")[0]},
+                           "native_replay": {"reproduced": True, "how": "seeded input of the native cross-check", "run": fl},
+                           "note": "clause not refuted by the prover on this tree"}, f, indent=1, default=str)
+            violations.append(({"name": "native cross-check %s: %s" % (name, unexplained[0][:100])}, path, True))
 
     # ---- mutants (thorough) ----------------------------------------------------------------------
     mutant_report = None
@@ -252,6 +269,8 @@ def run_check(args):
         "trusted_base": ["pyvc VC generator (/verif/pyvc)", "z3 5.1.0", "cvc5 1.0.3", "z3 4.8.12",
                          "CPython ast module", "sidecar contracts in /verif/contracts (specification)"] + trusted,
         "functions_under_contract": functions,
+        "dependency_contracts_verified_in_this_run": sorted("%s:%s" % (r["rel"], r["qual"]) for r in results
+                                                            if r.get("dependency")),
         "backends": backends,
         "solver_seconds": round(solver_s, 3),
         "failed": [ob["name"] for _, ob in failed],
